@@ -104,3 +104,111 @@ Definition S_join_single_spec : Prop :=
     | Err _ => has_entry (eh x) (lents l) = false /\ acc x = false
     | Panic _ => False
     end.
+
+(** * Global system (C01, C06, C07, C08) *)
+
+(** [x] occurs strictly before [y] in [l] *)
+Definition before {A} (x y : A) (l : list A) : Prop :=
+  exists l1 l2 l3, l = l1 ++ x :: l2 ++ y :: l3.
+
+Definition kv_okop (o : op) : Prop :=
+  match o with OPut (Some _) _ | ODel (Some _) => True | _ => False end.
+Definition doc_okop (o : op) : Prop :=
+  match o with
+  | OPut (Some _) _ | ODel (Some _) => True
+  | OPutAll docs => NoDup (map fst docs)
+  | _ => False
+  end.
+Definition any_okop (o : op) : Prop := True.
+
+Section GlobalStatements.
+  Variable marks cont : bool.
+  Variable acc : entry -> bool.
+  Variable n : nat.
+  Variable dbid : N.
+
+  (** invariant of every reachable global state *)
+  Record ginv (g : gstate) : Prop := {
+    gi_wf    : WF (guniv g);
+    gi_len   : length (greps g) = n;
+    gi_logs  : forall i rs, nth_error (greps g) i = Some rs ->
+                 log_ok (guniv g) (rlog rs) /\ lid (rlog rs) = dbid;
+    gi_univ  : forall e, In e (guniv g) -> elog e = dbid /\ acc e = true;
+    gi_own   : forall i rs x, nth_error (greps g) i = Some rs ->
+                 In x (guniv g) -> ecid x = writer_of i -> In x (lents (rlog rs));
+    gi_cids  : forall x, In x (guniv g) -> exists i, (i < n)%nat /\ ecid x = writer_of i;
+    gi_order : forall p q e1 e2, nth_error (guniv g) p = Some e1 -> nth_error (guniv g) q = Some e2 ->
+                 (p < q)%nat -> ecid e1 = ecid e2 -> key_lt e1 e2
+  }.
+
+  Definition S_greach_inv : Prop :=
+    forall okop g, greach marks cont acc okop n dbid g -> ginv g.
+
+  (** C01: equal entry sets => equal listing and heads, whatever the delivery history *)
+  Definition S_convergence_log : Prop :=
+    forall okop g a b ra rb,
+      greach marks cont acc okop n dbid g ->
+      nth_error (greps g) a = Some ra -> nth_error (greps g) b = Some rb ->
+      same_set (lents (rlog ra)) (lents (rlog rb)) ->
+      values (rlog ra) = values (rlog rb) /\ heads_sorted (rlog ra) = heads_sorted (rlog rb).
+
+  (** the listing of every replica is the ascending sort of its entry set *)
+  Definition S_values_sorted : Prop :=
+    forall okop g i rs,
+      greach marks cont acc okop n dbid g -> nth_error (greps g) i = Some rs ->
+      same_set (values (rlog rs)) (lents (rlog rs)) /\ asc_sorted (values (rlog rs)).
+
+  (** C06: the kv view of every replica is the last-writer-wins replay of its listing *)
+  Definition S_kv_view : Prop :=
+    forall g i rs,
+      greach marks cont acc kv_okop n dbid g -> nth_error (greps g) i = Some rs ->
+      represents (rkv rs) (kv_replay (values (rlog rs))).
+
+  (** C07: likewise for the document view, when the PUTALL bookkeeping marks document keys *)
+  Definition S_doc_view : Prop :=
+    marks = true ->
+    forall g i rs,
+      greach marks cont acc doc_okop n dbid g -> nth_error (greps g) i = Some rs ->
+      represents (rdoc rs) (doc_replay (values (rlog rs))).
+
+  (** C06/C08: an entry written by a replica sorts after everything that replica held *)
+  Definition S_write_after_seen : Prop :=
+    forall okop g r h refs o rs,
+      greach marks cont acc okop n dbid g -> admissible okop g (GWrite r h refs o) ->
+      nth_error (greps g) r = Some rs ->
+      forall e, In e (guniv (gstep_run marks cont acc g (GWrite r h refs o))) -> ~ In e (guniv g) ->
+      eh e = h /\ forall x, In x (lents (rlog rs)) -> key_lt x e.
+
+  (** C08: a step never removes an entry and never reorders two listed entries *)
+  Definition S_step_monotone : Prop :=
+    forall okop g s i rs rs',
+      greach marks cont acc okop n dbid g -> admissible okop g s ->
+      nth_error (greps g) i = Some rs ->
+      nth_error (greps (gstep_run marks cont acc g s)) i = Some rs' ->
+      incl (values (rlog rs)) (values (rlog rs')) /\
+      forall x y, before x y (values (rlog rs)) -> before x y (values (rlog rs')).
+
+  (** C08: a writer's own entries are listed in the order it wrote them *)
+  Definition S_writer_order : Prop :=
+    forall okop g i rs p q e1 e2,
+      greach marks cont acc okop n dbid g -> nth_error (greps g) i = Some rs ->
+      nth_error (guniv g) p = Some e1 -> nth_error (guniv g) q = Some e2 -> (p < q)%nat ->
+      ecid e1 = ecid e2 -> In e1 (values (rlog rs)) -> In e2 (values (rlog rs)) ->
+      before e1 e2 (values (rlog rs)).
+
+  (** C01 for the views: equal entry sets => equal key-value maps / documents *)
+  Definition S_convergence_kv : Prop :=
+    forall g a b ra rb,
+      greach marks cont acc kv_okop n dbid g ->
+      nth_error (greps g) a = Some ra -> nth_error (greps g) b = Some rb ->
+      same_set (lents (rlog ra)) (lents (rlog rb)) ->
+      forall k, alookup bytes_eqb k (rkv ra) = alookup bytes_eqb k (rkv rb).
+
+  Definition S_convergence_doc : Prop :=
+    marks = true ->
+    forall g a b ra rb,
+      greach marks cont acc doc_okop n dbid g ->
+      nth_error (greps g) a = Some ra -> nth_error (greps g) b = Some rb ->
+      same_set (lents (rlog ra)) (lents (rlog rb)) ->
+      forall k, alookup bytes_eqb k (rdoc ra) = alookup bytes_eqb k (rdoc rb).
+End GlobalStatements.
